@@ -29,9 +29,12 @@ pub enum Site {
     /// root N+1 keeps root N's root role entry (key ids, threshold) unchanged but its key table
     /// omits the keys whose signatures were needed to satisfy root N: judged under its own table
     RootSameRole,
+    /// one delegated role reached through two parents that authorise different keys for it: the
+    /// word is judged against the second parent's key set (the first parent's is always satisfied)
+    DelegDiamond,
 }
 
-pub const SITES: [Site; 9] = [
+pub const SITES: [Site; 10] = [
     Site::ShippedRoot,
     Site::RootOldKeys,
     Site::RootNewKeys,
@@ -41,6 +44,7 @@ pub const SITES: [Site; 9] = [
     Site::Deleg1,
     Site::Deleg2,
     Site::RootSameRole,
+    Site::DelegDiamond,
 ];
 
 #[derive(Clone, Copy, Debug, Serialize, Deserialize, PartialEq, Eq)]
@@ -226,7 +230,7 @@ fn build_world(sc: &Sc) -> World {
     // sites; we make it a second targets key (or second snapshot key when the site is targets).
     match sc.site {
         Site::Targets => r1.snapshot.keys.push(other_role_for_root_table.clone()),
-        Site::Deleg1 | Site::Deleg2 => {}
+        Site::Deleg1 | Site::Deleg2 | Site::DelegDiamond => {}
         _ => r1.targets.keys.push(other_role_for_root_table.clone()),
     }
     match sc.site {
@@ -380,6 +384,36 @@ fn build_world(sc: &Sc) -> World {
             deleg_files.push(("sib".into(), 1, sib_doc.bytes()));
             top_delegs = Some(vec![d1]);
         }
+        Site::DelegDiamond => {
+            // targets -> pa -> shared and targets -> pb -> shared; pa authorises a bridge key for
+            // `shared`, pb authorises the site's key set; `shared` exists once
+            let (k_pa, k_pb, k_bridge) = (keys::ed(w, 7), keys::ed(w, 8), keys::ed(w, 9));
+            let via_pa = DelegSpec { name: "shared".into(), keys: RoleKeys::one(&k_bridge), paths: glob("d1/*"), terminating: false };
+            let via_pb = DelegSpec { name: "shared".into(), keys: site_rk.clone(), paths: glob("d1/*"), terminating: false };
+            let sib = DelegSpec { name: "sib".into(), keys: RoleKeys::one(&sk.other_role), paths: glob("d1/sib/*"), terminating: false };
+            let pa_doc = Doc::signed_by(targets_signed(1, FAR, &[], Some(&[via_pa])), &[k_pa.clone()]);
+            let mut pb_signed = targets_signed(1, FAR, &[], Some(&[via_pb, sib]));
+            if has_missing {
+                add_missing_keyid_deleg(&mut pb_signed, "shared", &sk.missing.id);
+            }
+            let pb_doc = Doc::signed_by(pb_signed, &[k_pb.clone()]);
+            let shared_signed = targets_signed(1, FAR, &[], None);
+            let (sigs, truth) = build_sigs(&shared_signed, &sk, &sc.word);
+            judge(&truth);
+            let mut all = vec![sign_with(&shared_signed, &k_bridge)];
+            all.extend(sigs);
+            let shared_doc = Doc { signed: shared_signed, sigs: all };
+            let sib_doc = Doc::signed_by(targets_signed(1, FAR, &[], None), &[sk.other_role.clone()]);
+            api = (pb_doc.bytes(), shared_doc.bytes(), "shared".into());
+            deleg_files.push(("pa".into(), 1, pa_doc.bytes()));
+            deleg_files.push(("pb".into(), 1, pb_doc.bytes()));
+            deleg_files.push(("shared".into(), 1, shared_doc.bytes()));
+            deleg_files.push(("sib".into(), 1, sib_doc.bytes()));
+            top_delegs = Some(vec![
+                DelegSpec { name: "pa".into(), keys: RoleKeys::one(&k_pa), paths: glob("d1/*"), terminating: false },
+                DelegSpec { name: "pb".into(), keys: RoleKeys::one(&k_pb), paths: glob("d1/*"), terminating: false },
+            ]);
+        }
         _ => {}
     }
 
@@ -470,7 +504,7 @@ fn api_verdict(site: Site, api: &(Vec<u8>, Vec<u8>, String)) -> Option<bool> {
             let x: Signed<Targets> = serde_json::from_slice(doc).ok()?;
             Some(d.signed.verify_role(&x).is_ok())
         }
-        Site::Deleg1 | Site::Deleg2 => {
+        Site::Deleg1 | Site::Deleg2 | Site::DelegDiamond => {
             let d: Signed<Targets> = serde_json::from_slice(delegator).ok()?;
             let x: Signed<Targets> = serde_json::from_slice(doc).ok()?;
             Some(d.signed.delegations.as_ref()?.verify_role(&x, name).is_ok())
@@ -498,7 +532,7 @@ impl Check for C01 {
         "C01"
     }
     fn rule(&self) -> String {
-        "one verification site (9: shipped root, root N+1 under old keys, under new keys, under an unchanged root role entry with a pruned key table, timestamp, snapshot, targets, delegated depth 1 and 2) x key set (1..4 keys, ed25519/ecdsa/rsa mixed) x threshold 1..4 x signature word of length 0..5 over the 7-letter alphabet of the property; thorough enumerates all 19608 words x 9 sites x 16 (keys,threshold) shapes before the seeded runs; non-trivial = the word contains at least one letter other than a first valid signature and the site's document was fetched; distinct = distinct canonical trace".into()
+        "one verification site (10: shipped root, root N+1 under old keys, under new keys, under an unchanged root role entry with a pruned key table, timestamp, snapshot, targets, delegated depth 1 and 2, a role shared by two parents that authorise different keys for it) x key set (1..4 keys, ed25519/ecdsa/rsa mixed) x threshold 1..4 x signature word of length 0..5 over the 7-letter alphabet of the property; thorough enumerates all 19608 words x 10 sites x 16 (keys,threshold) shapes before the seeded runs; non-trivial = the word contains at least one letter other than a first valid signature and the site's document was fetched; distinct = distinct canonical trace".into()
     }
     fn assumptions(&self) -> Vec<String> {
         vec![
